@@ -193,6 +193,24 @@ pub fn run(ctx: &Ctx) -> Report {
             cases2.push(Prog { class: c, method: m, tid: tid0, ops: vec![alpha[6].clone(), Op::Sha1(0), Op::Fp] }.to_case("build"));
         }
     }
+    // (2b) one-attribute messages over the whole encode-side value alphabet of every built-in type
+    // (decorated and protocol-looking texts, standard reason phrases in several spellings and with the
+    // code in front, special-purpose addresses, every list shape ...), unsealed and sealed
+    for k in attrs::ALL_KINDS {
+        if wire::is_integrity(k.code()) || k.code() == wire::FP {
+            continue;
+        }
+        for (v, t) in crate::engine_in::values::encode_values(k, ctx.seeded(3)) {
+            if t != 0x0102_0304_0506_0708_090A_0B0C {
+                continue;
+            }
+            for s in [vec![], vec![Op::Sha1(0), Op::Fp]] {
+                let mut ops = vec![Op::Typed(k, v.clone())];
+                ops.extend(s);
+                cases2.push(Prog { class: 3, method: 1, tid: t, ops }.to_case("build"));
+            }
+        }
+    }
     // (3) one-attribute messages for every length (all padding residues at all sizes)
     for len in 0..=763usize {
         let text = vec![b'a' + (len % 26) as u8; len];
@@ -285,7 +303,7 @@ pub fn run(ctx: &Ctx) -> Report {
     Report {
         acc,
         exhaustive: true,
-        rule: "all lists of pairwise distinct attributes up to the depth over a 42-entry alphabet (16 non-sealing built-in types with 2-3 values each + raw types) x 8 sealing combinations x {short-term, long-term}, each short-term program also with into_owned() before the sealing, into_owned()+clone() at the end, and the builder measured / serialised after every operation; 100 header variants x 3 lists x 8 sealings; all 4096 methods x 4 classes; one-attribute messages of every length 0..=763 (USERNAME 0..=513); every encode-side value of every type; every 16-bit type code as a raw attribute (alone; behind SOFTWARE and fully sealed); values that look like FINGERPRINT / MI / MI-SHA256 attribute headers or a STUN header, first / middle / last, under every sealing; distinct_nontrivial = programs the builder ran to completion".into(),
+        rule: "all lists of pairwise distinct attributes up to the depth over a 42-entry alphabet (16 non-sealing built-in types with 2-3 values each + raw types) x 8 sealing combinations x {short-term, long-term}, each short-term program also with into_owned() before the sealing, into_owned()+clone() at the end, and the builder measured / serialised after every operation; 100 header variants x 3 lists x 8 sealings; one-attribute messages over the whole encode-side value alphabet of every built-in type, unsealed and sealed; all 4096 methods x 4 classes; one-attribute messages of every length 0..=763 (USERNAME 0..=513); every encode-side value of every type; every 16-bit type code as a raw attribute (alone; behind SOFTWARE and fully sealed); values that look like FINGERPRINT / MI / MI-SHA256 attribute headers or a STUN header, first / middle / last, under every sealing; distinct_nontrivial = programs the builder ran to completion".into(),
         bounds: json!({"attribute_lists": n_lists, "list_depth": depth, "alphabet": alpha.len(), "sealings": 8}),
         assumptions: vec!["messages larger than the 16-bit length field are outside the statement".into()],
         ..Default::default()
